@@ -1022,6 +1022,34 @@ def run_k6_keys(ctx):
                       "key more often to one producing it less often, and the entry vanishes from that index list although it still matches",
                       file=g["file"], line=c.get("line"))
     ctx.floor(rule, "key generators that dedup", n_dedup, 8)
+    # reference instances (confirmed on the pinned tree): these generators build keys from n-grams or from several
+    # values that can produce the same key, so they must normalise (sort, then dedup) — dropping the dedup is as bad
+    # as dedup-ing unsorted. A generator that disappears (type removed) is not an error.
+    MUST_NORMALISE = [
+        "ValueSetEmailAddress::generate_idx_sub_keys", "ValueSetPublicBinary::generate_idx_sub_keys",
+        "ValueSetCredential::generate_idx_sub_keys", "ValueSetIname::generate_idx_sub_keys",
+        "ValueSetIutf8::generate_idx_sub_keys", "ValueSetRestricted::generate_idx_sub_keys",
+        "ValueSetOauth2Session::generate_idx_eq_keys", "ValueSetSshKey::generate_idx_sub_keys",
+        "ValueSetUtf8::generate_idx_sub_keys",
+    ]
+    if not lifted:
+        by_key = {}
+        for name in gens:
+            ty = re.search(r"(ValueSet\w+) as valueset::ValueSetT>::(\w+)$", name)
+            if ty:
+                by_key[f"{ty.group(1)}::{ty.group(2)}"] = name
+        for key in MUST_NORMALISE:
+            name = by_key.get(key)
+            if name is None:
+                continue
+            g = ctx.fn(LIB, name)
+            has = any(is_call_to(c, "dedup", "dedup_by", "dedup_by_key") for c in all_calls(g["body"]))
+            # a set-typed collection (BTreeSet/HashSet collect) is an equally good normalisation
+            setlike = any("BTreeSet" in (c.get("ty") or "") or "HashSet" in (c.get("ty") or "") for c in all_calls(g["body"]))
+            ctx.check(has or setlike, rule, name, f"normalises:{key}", "keys are de-duplicated",
+                      f"{key} no longer removes duplicate keys (no dedup, no set collection): its source yields the same key several times "
+                      "(n-grams of one value / several values), so idx_diff's merge walk mis-classifies the surplus copies",
+                      file=g["file"], line=g["line"])
 
 
 def run(ctx):
